@@ -296,7 +296,9 @@ class MVL(MoveInstruction):
                 # For pre-decrement sources, check if we need to continue
                 # Only update if there are more bytes to copy (I > 1)
                 loop_reg = Reg("I")
-                continue_cond = il.compare_signed_greater_than(
+                # I is an unsigned 16-bit count: a signed compare stops stepping
+                # the pointer once I >= 0x8000.
+                continue_cond = il.compare_unsigned_greater_than(
                     loop_reg.width(), loop_reg.lift(il), il.const(loop_reg.width(), 1)
                 )
 
